@@ -72,9 +72,11 @@ def OpTok.text : OpTok → String
 
 inductive Token where
   | ident (n : Nat)
-  | int (n : Nat)
+  | lit (k : LiteralType) (n : Nat)
   | op (o : OpTok)
-  | lparen | rparen | lbrack | rbrack | period | comma | ellipsis
+  | lparen | rparen | lbrack | rbrack | period | comma | ellipsis | colon
+  | lbrace | rbrace
+  | kwMap | kwChan | kwInterface | kwDefault
   deriving DecidableEq, Repr
 
 /-- the token of a unary operator (`UnaryOperator.String`: `n.Op.String()`) -/
@@ -116,14 +118,24 @@ def bprec (b : BinOp) : Nat :=
 /-- `(*UnaryOperator).Precedence()` -/
 abbrev uprec : Nat := unaryPrecedence
 
+/-- Expressions, types included (in the real tree a type is an `ast.Expression` too: `T` is an
+`Identifier`, `p.T` a `Selector`, `*T` a `UnaryOperator`). -/
 inductive Expr where
   | ident (n : Nat)
-  | lit (n : Nat)
+  | lit (k : LiteralType) (n : Nat)
   | unary (op : UnOp) (e : Expr)
   | binary (op : BinOp) (l r : Expr)
   | call (f : Expr) (args : List Expr) (variadic : Bool)
   | index (e i : Expr)
+  | slicing (e : Expr) (lo hi max : Option Expr) (full : Bool)
   | selector (e : Expr) (n : Nat)
+  | typeAssert (e t : Expr)
+  | dflt (l r : Expr)
+  | sliceT (t : Expr)
+  | arrayT (len : Option Expr) (t : Expr)
+  | mapT (k v : Expr)
+  | chanT (d : ChanDirection) (t : Expr)
+  | iface
   | paren (e : Expr)
 
 /-- `e.(Operator)` and `e.Precedence()`: `none` for a node that is not an operator. The
@@ -143,29 +155,41 @@ def needs (rule : Nat → Bool) (child : Expr) : Bool :=
 /-- `_, ok := e.(Operator)` -/
 def isOperator (e : Expr) : Bool := e.prec?.isSome
 
-/-- the operator of a `*UnaryOperator` node (whatever its parentheses count) -/
-def Expr.unaryOp? : Expr → Option UnOp
-  | .unary u _ => some u
-  | .paren e => e.unaryOp?
-  | _ => none
+/-- the node without its parentheses count -/
+def Expr.core : Expr → Expr
+  | .paren e => e.core
+  | e => e
 
 /-- `Call.String`: `case *UnaryOperator: if fn.Op == OperatorPointer || fn.Op == OperatorReceive`
-— the only case in which the function of a call is parenthesised (function and channel types are
-outside the fragment). `Index.String` and `Selector.String` never parenthesise their operand. -/
+and `case *ChanType` — the cases in which the function of a call is parenthesised (function types
+are outside the fragment). `Index`, `Slicing`, `Selector`, `TypeAssertion` never parenthesise
+their operand. -/
 def callParens (f : Expr) : Bool :=
-  match f.unaryOp? with
-  | some .pointer => true
-  | some .receive => true
+  match f.core with
+  | .unary .pointer _ => true
+  | .unary .receive _ => true
+  | .chanT _ _ => true
   | _ => false
+
+/-- `ChanType.String`: `chan (<-chan T)` -/
+def chanParens (d : ChanDirection) (t : Expr) : Bool :=
+  match d, t.core with
+  | .NoDirection, .chanT .ReceiveDirection _ => true
+  | _, _ => false
 
 def wrap (c : Bool) (ts : List Token) : List Token :=
   if c then Token.lparen :: (ts ++ [Token.rparen]) else ts
+
+def chanToks : ChanDirection → List Token
+  | .NoDirection => [.kwChan]
+  | .ReceiveDirection => [.op .arrow, .kwChan]
+  | .SendDirection => [.kwChan, .op .arrow]
 
 mutual
 /-- `String()`, as tokens -/
 def print : Expr → List Token
   | .ident n => [.ident n]
-  | .lit n => [.int n]
+  | .lit k n => [.lit k n]
   | .paren e => print e
   | .unary u e => .op (unTok u) :: wrap (needs (unaryParens u.toOp uprec) e) (print e)
   | .binary b l r =>
@@ -174,11 +198,25 @@ def print : Expr → List Token
   | .call f args v =>
       wrap (callParens f) (print f) ++ .lparen :: (printArgs args ++ (if v then [.ellipsis, .rparen] else [.rparen]))
   | .index e i => print e ++ .lbrack :: (print i ++ [.rbrack])
+  | .slicing e lo hi max _ =>
+      print e ++ .lbrack :: (printOpt lo ++ .colon :: (printOpt hi ++
+        ((match max with | some m => .colon :: print m | none => []) ++ [.rbrack])))
   | .selector e n => print e ++ [.period, .ident n]
+  | .typeAssert e t => print e ++ .period :: .lparen :: (print t ++ [.rparen])
+  | .dflt l r => print l ++ .kwDefault :: print r
+  | .sliceT t => .lbrack :: .rbrack :: print t
+  | .arrayT len t => .lbrack :: ((match len with | some l => print l | none => [.ellipsis]) ++ .rbrack :: print t)
+  | .mapT k v => .kwMap :: .lbrack :: (print k ++ .rbrack :: print v)
+  | .chanT d t => chanToks d ++ wrap (chanParens d t) (print t)
+  | .iface => [.kwInterface, .lbrace, .rbrace]
 /-- the arguments, separated by commas -/
 def printArgs : List Expr → List Token
   | [] => []
   | a :: as => print a ++ (match as with | [] => [] | _ :: _ => .comma :: printArgs as)
+/-- an optional bound of a slicing -/
+def printOpt : Option Expr → List Token
+  | none => []
+  | some e => print e
 end
 
 /-! ## the parser -/
@@ -208,68 +246,169 @@ def closeAll : Expr → List Frame → Expr
   | x, [] => x
   | x, f :: fs => closeAll (f.plug x) fs
 
-/-- a suspended call of `parseExpr` (its `path`) waiting for a nested one to return -/
-inductive Ctx where
-  | paren (path : List Frame)
-  | call (path : List Frame) (f : Expr) (args : List Expr)
-  | index (path : List Frame) (e : Expr)
+/-- what a suspended call of `parseExpr` is waiting for -/
+inductive CtxKind where
+  | paren                                   -- `( e )`
+  | call (f : Expr) (args : List Expr)      -- `f(a, b`
+  | index (e : Expr)                        -- `e[ i`
+  | sliceHi (e : Expr) (lo : Option Expr)   -- `e[lo: hi`
+  | sliceMax (e : Expr) (lo hi : Option Expr) -- `e[lo:hi: max`
+  | arrLen                                  -- `[ len`  (or `[]`, `[...]`)
+  | arrElem (len : Option Expr)             -- `[len] T`
+  | sliceElem                               -- `[] T`
+  | mapKey                                  -- `map[ K`
+  | mapVal (k : Expr)                       -- `map[K] V`
+  | chanElem (d : ChanDirection)            -- `chan T`
+  | assertTy (e : Expr)                     -- `e.( T`
+  | dfltRhs (l : Expr)                      -- `l default r`
+
+/-- a suspended call of `parseExpr`: its `path` and its `mustBeType` -/
+structure Ctx where
+  kind : CtxKind
+  path : List Frame
+  ty : Bool
 
 inductive Mode where
-  | operand
-  | operator (e : Expr)
-  | dot (e : Expr)
-  | notc (e : Expr)
-  | variadic (e : Expr)
+  | operand                    -- top of the outer loop
+  | operator (e : Expr)        -- the loop `for operator == nil`, operand parsed
+  | dot (e : Expr)             -- after `e .`
+  | notc (e : Expr)            -- after `e not`
+  | variadic (e : Expr)        -- after `f(a...`
+  | tyIdent (n : Nat)          -- `mustBeType`: identifier read, a `.` may follow
+  | tyDot (n : Nat)            -- `mustBeType`: after `p .`
+  | mapOpen                    -- after `map`
+  | chanOpen                   -- after `chan`: `<-` may follow
+  | ifaceOpen | ifaceClose     -- after `interface`, after `interface {`
+  | arrEllipsis                -- after `[ ...`
 
 structure St where
   mode : Mode
   path : List Frame
+  ty : Bool          -- `mustBeType` of the current call of `parseExpr`
   ctxs : List Ctx
+
+/-- The call of `parseExpr` with path `p` and `mustBeType = ty` has its operand `e`. With
+`mustBeType` it returns at once (`if dontEatLeftBraces || mustBeType`), and a caller that was
+waiting for the last component of a type (`[]T`, `[n]T`, `map[K]V`, `chan T`) has its own operand,
+and so on. -/
+def complete : Expr → List Frame → Bool → List Ctx → St
+  | e, p, false, k => ⟨.operator e, p, false, k⟩
+  | e, p, true, [] => ⟨.operator (closeAll e p), [], true, []⟩
+  | e, p, true, c :: k =>
+    match c.kind with
+    | .sliceElem => complete (.sliceT (closeAll e p)) c.path c.ty k
+    | .arrElem len => complete (.arrayT len (closeAll e p)) c.path c.ty k
+    | .mapVal key => complete (.mapT key (closeAll e p)) c.path c.ty k
+    | .chanElem d => complete (.chanT d (closeAll e p)) c.path c.ty k
+    | _ => ⟨.operator (closeAll e p), [], true, c :: k⟩
+
+/-- a `Default` node needs an identifier or a call on its left (`switch operand.(type)`) -/
+def dfltLhsOk (e : Expr) : Bool :=
+  match e with
+  | .ident _ => true
+  | .call _ _ _ => true
+  | .paren e => dfltLhsOk e
+  | _ => false
 
 /-- the current `parseExpr` returns `e` (already closed with `addLastOperand`) to its caller, the
 next token being `t` -/
-def ret (e : Expr) (t : Token) (ctxs : List Ctx) : Option St :=
-  match t, ctxs with
-  | .rparen, .paren p :: k => some ⟨.operator (.paren e), p, k⟩
-  | .rparen, .call p f args :: k => some ⟨.operator (.call f (args ++ [e]) false), p, k⟩
-  | .comma, .call p f args :: k => some ⟨.operand, [], .call p f (args ++ [e]) :: k⟩
-  | .ellipsis, .call p f args :: k => some ⟨.variadic (.call f (args ++ [e]) true), p, k⟩
-  | .rbrack, .index p x :: k => some ⟨.operator (.index x e), p, k⟩
-  | _, _ => none
+def ret (e : Expr) (t : Token) : List Ctx → Option St
+  | [] => none
+  | c :: k =>
+    match t, c.kind with
+    | .rparen, .paren => some (complete (.paren e) c.path c.ty k)
+    | .rparen, .call f args => some (complete (.call f (args ++ [e]) false) c.path c.ty k)
+    | .comma, .call f args => some ⟨.operand, [], false, ⟨.call f (args ++ [e]), c.path, c.ty⟩ :: k⟩
+    | .ellipsis, .call f args => some ⟨.variadic (.call f (args ++ [e]) true), c.path, c.ty, k⟩
+    | .rbrack, .index x => some (complete (.index x e) c.path c.ty k)
+    | .colon, .index x => some ⟨.operand, [], false, ⟨.sliceHi x (some e), c.path, c.ty⟩ :: k⟩
+    | .rbrack, .sliceHi x lo => some (complete (.slicing x lo (some e) none false) c.path c.ty k)
+    | .colon, .sliceHi x lo => some ⟨.operand, [], false, ⟨.sliceMax x lo (some e), c.path, c.ty⟩ :: k⟩
+    | .rbrack, .sliceMax x lo hi => some (complete (.slicing x lo hi (some e) true) c.path c.ty k)
+    | .rbrack, .arrLen => some ⟨.operand, [], true, ⟨.arrElem (some e), c.path, c.ty⟩ :: k⟩
+    | .rbrack, .mapKey => some ⟨.operand, [], true, ⟨.mapVal e, c.path, c.ty⟩ :: k⟩
+    | .rparen, .assertTy x => some (complete (.typeAssert x e) c.path c.ty k)
+    | t, .dfltRhs l => ret (closeAll (.dflt l e) c.path) t k
+    | _, _ => none
+
+/-- the current `parseExpr` returns nil (no expression at `t`) -/
+def retNil (t : Token) : List Ctx → Option St
+  | [] => none
+  | c :: k =>
+    match t, c.kind with
+    | .rparen, .call f args => some (complete (.call f args false) c.path c.ty k)      -- `f()`, `f(a,)`
+    | .colon, .index x => some ⟨.operand, [], false, ⟨.sliceHi x none, c.path, c.ty⟩ :: k⟩
+    | .rbrack, .sliceHi x lo => some (complete (.slicing x lo none none false) c.path c.ty k)
+    | .colon, .sliceHi x lo => some ⟨.operand, [], false, ⟨.sliceMax x lo none, c.path, c.ty⟩ :: k⟩
+    | .rbrack, .sliceMax x lo hi => some (complete (.slicing x lo hi none true) c.path c.ty k)
+    | .rbrack, .arrLen => some ⟨.operand, [], true, ⟨.sliceElem, c.path, c.ty⟩ :: k⟩   -- `[]T`
+    | .ellipsis, .arrLen => some ⟨.arrEllipsis, [], false, c :: k⟩                      -- `[...`
+    | _, _ => none
+
+/-- a pushed context and a fresh `parseExpr` -/
+def push (s : St) (kind : CtxKind) (ty : Bool) : St :=
+  ⟨.operand, [], ty, ⟨kind, s.path, s.ty⟩ :: s.ctxs⟩
+
+/-- top of the outer loop: an operand or a unary operator is expected -/
+def stepOperand (s : St) (t : Token) : Option St :=
+  -- `<-` must be followed by `chan` where a type is expected
+  if s.ty = true ∧ (match s.path with | .un .receive :: _ => true | _ => false) = true ∧ t ≠ .kwChan then none
+  else
+  match t with
+  | .lparen => some (push s .paren s.ty)
+  | .ident n =>
+    if s.ty then some { s with mode := .tyIdent n } else some { s with mode := .operator (.ident n) }
+  | .lit k n => if s.ty then none else some { s with mode := .operator (.lit k n) }
+  | .op o =>
+    match unaryOf o with
+    | some u =>
+      if s.ty = true ∧ u ≠ .pointer ∧ u ≠ .receive then none
+      else some { s with path := .un u :: s.path }
+    | none => none
+  | .lbrack => some (push s .arrLen false)
+  | .kwMap => some { s with mode := .mapOpen }
+  | .kwChan =>
+    match s.path with
+    | .un .receive :: p => some (push { s with path := p } (.chanElem .ReceiveDirection) true)
+    | _ => some { s with mode := .chanOpen }
+  | .kwInterface => some { s with mode := .ifaceOpen }
+  | t =>
+    match s.path with
+    | [] => retNil t s.ctxs
+    | _ :: _ => none
+
+/-- the loop `for operator == nil`: the operand `e` is parsed -/
+def stepOperator (s : St) (e : Expr) (t : Token) : Option St :=
+  if s.ty then ret (closeAll e s.path) t s.ctxs
+  else
+  match t with
+  | .lparen => some (push s (.call e []) false)
+  | .lbrack => some (push s (.index e) false)
+  | .period => some { s with mode := .dot e }
+  | .op o =>
+    if o = .extNot then some { s with mode := .notc e }
+    else match binaryOf o with
+      | some b =>
+        let r := reduce (bprec b) e s.path
+        some { s with mode := .operand, path := .bin b r.1 :: r.2 }
+      | none => ret (closeAll e s.path) t s.ctxs
+  | .kwDefault => if dfltLhsOk e then some (push s (.dfltRhs e) false) else none
+  | t => ret (closeAll e s.path) t s.ctxs
+
+/-- the state once the pending identifier of a type is known to be complete -/
+def settle (s : St) : St :=
+  match s.mode with
+  | .tyIdent n => complete (.ident n) s.path s.ty s.ctxs
+  | _ => s
 
 def step (s : St) (t : Token) : Option St :=
   match s.mode with
-  | .operand =>
-    match t with
-    | .lparen => some ⟨.operand, [], .paren s.path :: s.ctxs⟩
-    | .ident n => some { s with mode := .operator (.ident n) }
-    | .int n => some { s with mode := .operator (.lit n) }
-    | .op o =>
-      match unaryOf o with
-      | some u => some { s with path := .un u :: s.path }
-      | none => none
-    | .rparen =>
-      -- no expression: only `f()` and `f(a, b,)` go on
-      match s.path, s.ctxs with
-      | [], .call p f args :: k => some ⟨.operator (.call f args false), p, k⟩
-      | _, _ => none
-    | _ => none
-  | .operator e =>
-    match t with
-    | .lparen => some ⟨.operand, [], .call s.path e [] :: s.ctxs⟩
-    | .lbrack => some ⟨.operand, [], .index s.path e :: s.ctxs⟩
-    | .period => some { s with mode := .dot e }
-    | .op o =>
-      if o = .extNot then some { s with mode := .notc e }
-      else match binaryOf o with
-        | some b =>
-          let r := reduce (bprec b) e s.path
-          some { s with mode := .operand, path := .bin b r.1 :: r.2 }
-        | none => none
-    | t => ret (closeAll e s.path) t s.ctxs
+  | .operand => stepOperand s t
+  | .operator e => stepOperator s e t
   | .dot e =>
     match t with
     | .ident n => some { s with mode := .operator (.selector e n) }
+    | .lparen => some (push s (.assertTy e) true)
     | _ => none
   | .notc e =>
     match t with
@@ -279,8 +418,40 @@ def step (s : St) (t : Token) : Option St :=
     | _ => none
   | .variadic e =>
     match t with
-    | .rparen => some { s with mode := .operator e }
+    | .rparen => some (complete e s.path s.ty s.ctxs)
     | _ => none
+  | .tyIdent n =>
+    match t with
+    | .period => some { s with mode := .tyDot n }
+    | t =>
+      let s' := complete (.ident n) s.path s.ty s.ctxs
+      match s'.mode with
+      | .operator e => stepOperator s' e t
+      | _ => none
+  | .tyDot n =>
+    match t with
+    | .ident m => some (complete (.selector (.ident n) m) s.path s.ty s.ctxs)
+    | _ => none
+  | .mapOpen =>
+    match t with
+    | .lbrack => some (push s .mapKey true)
+    | _ => none
+  | .chanOpen =>
+    match t with
+    | .op .arrow => some (push s (.chanElem .SendDirection) true)
+    | t => stepOperand (push s (.chanElem .NoDirection) true) t
+  | .ifaceOpen =>
+    match t with
+    | .lbrace => some { s with mode := .ifaceClose }
+    | _ => none
+  | .ifaceClose =>
+    match t with
+    | .rbrace => some (complete .iface s.path s.ty s.ctxs)
+    | _ => none
+  | .arrEllipsis =>
+    match t, s.ctxs with
+    | .rbrack, c :: k => some ⟨.operand, [], true, ⟨.arrElem none, c.path, c.ty⟩ :: k⟩
+    | _, _ => none
 
 def run : St → List Token → Option St
   | s, [] => some s
@@ -288,13 +459,13 @@ def run : St → List Token → Option St
     | some s' => run s' ts
     | none => none
 
-def St.init : St := ⟨.operand, [], []⟩
+def St.init : St := ⟨.operand, [], false, []⟩
 
 /-- end of the source -/
 def finish (s : St) : Option Expr :=
-  match s.mode, s.ctxs with
-  | .operator e, [] => some (closeAll e s.path)
-  | _, _ => none
+  match (settle s).mode, (settle s).ctxs, (settle s).ty with
+  | .operator e, [], false => some (closeAll e (settle s).path)
+  | _, _, _ => none
 
 /-- `parseExpr` on a complete source: `none` is a syntax error -/
 def parse (ts : List Token) : Option Expr :=
@@ -310,7 +481,7 @@ mutual
 /-- the tree with exactly the parentheses `print` writes -/
 def norm : Expr → Expr
   | .ident n => .ident n
-  | .lit n => .lit n
+  | .lit k n => .lit k n
   | .paren e => norm e
   | .unary u e => .unary u (wrapP (needs (unaryParens u.toOp uprec) e) (norm e))
   | .binary b l r =>
@@ -318,60 +489,154 @@ def norm : Expr → Expr
         (wrapP (needs (binaryRightParens b.toOp (bprec b)) r) (norm r))
   | .call f args v => .call (wrapP (callParens f) (norm f)) (normArgs args) v
   | .index e i => .index (norm e) (norm i)
+  | .slicing e lo hi max full => .slicing (norm e) (normOpt lo) (normOpt hi) (normOpt max) full
   | .selector e n => .selector (norm e) n
+  | .typeAssert e t => .typeAssert (norm e) (norm t)
+  | .dflt l r => .dflt (norm l) (norm r)
+  | .sliceT t => .sliceT (norm t)
+  | .arrayT len t => .arrayT (normOpt len) (norm t)
+  | .mapT k v => .mapT (norm k) (norm v)
+  | .chanT d t => .chanT d (wrapP (chanParens d t) (norm t))
+  | .iface => .iface
 def normArgs : List Expr → List Expr
   | [] => []
   | a :: as => norm a :: normArgs as
+def normOpt : Option Expr → Option Expr
+  | none => none
+  | some e => some (norm e)
 end
 
 mutual
 /-- the tree without any parentheses count -/
 def strip : Expr → Expr
   | .ident n => .ident n
-  | .lit n => .lit n
+  | .lit k n => .lit k n
   | .paren e => strip e
   | .unary u e => .unary u (strip e)
   | .binary b l r => .binary b (strip l) (strip r)
   | .call f args v => .call (strip f) (stripArgs args) v
   | .index e i => .index (strip e) (strip i)
+  | .slicing e lo hi max full => .slicing (strip e) (stripOpt lo) (stripOpt hi) (stripOpt max) full
   | .selector e n => .selector (strip e) n
+  | .typeAssert e t => .typeAssert (strip e) (strip t)
+  | .dflt l r => .dflt (strip l) (strip r)
+  | .sliceT t => .sliceT (strip t)
+  | .arrayT len t => .arrayT (stripOpt len) (strip t)
+  | .mapT k v => .mapT (strip k) (strip v)
+  | .chanT d t => .chanT d (strip t)
+  | .iface => .iface
 def stripArgs : List Expr → List Expr
   | [] => []
   | a :: as => strip a :: stripArgs as
+def stripOpt : Option Expr → Option Expr
+  | none => none
+  | some e => some (strip e)
 end
 
+/-! ## which trees -/
+
+/-- what `parseExpr` accepts where a type is expected (`mustBeType`), function and struct types
+excluded: `T`, `p.T`, `*T`, `(T)`, `[]T`, `[n]T`, `[...]T`, `map[K]V`, `chan T`, `interface{}` -/
+def IsType : Expr → Bool
+  | .ident _ => true
+  | .selector e _ => (match e.core with | .ident _ => true | _ => false)
+  | .unary .pointer t => IsType t
+  | .paren t => IsType t
+  | .sliceT _ => true
+  | .arrayT _ _ => true
+  | .mapT _ _ => true
+  | .chanT _ _ => true
+  | .iface => true
+  | _ => false
+
 mutual
-/-- trees the parser can return: a variadic call has an argument -/
+/-- trees the parser can return -/
 def WF : Expr → Prop
   | .ident _ => True
-  | .lit _ => True
+  | .lit _ _ => True
   | .paren e => WF e
   | .unary _ e => WF e
   | .binary _ l r => WF l ∧ WF r
   | .call f args v => WF f ∧ WFArgs args ∧ (v = true → args ≠ [])
   | .index e i => WF e ∧ WF i
+  | .slicing e lo hi max full => WF e ∧ WFOpt lo ∧ WFOpt hi ∧ WFOpt max ∧ full = max.isSome
   | .selector e _ => WF e
+  | .typeAssert e t => WF e ∧ WF t ∧ IsType t = true
+  | .dflt l r => WF l ∧ WF r ∧ dfltLhsOk l = true
+  | .sliceT t => WF t ∧ IsType t = true
+  | .arrayT len t => WFOpt len ∧ WF t ∧ IsType t = true
+  | .mapT k v => WF k ∧ IsType k = true ∧ WF v ∧ IsType v = true
+  | .chanT _ t => WF t ∧ IsType t = true
+  | .iface => True
 def WFArgs : List Expr → Prop
   | [] => True
   | a :: as => WF a ∧ WFArgs as
+def WFOpt : Option Expr → Prop
+  | none => True
+  | some e => WF e
 end
 
+/-- the printed form ends with an identifier read where a type is expected: a following `.` would
+be taken for a qualified name (`[]T.x` is `[](T.x)`). `inTy`: the tree is itself in type position. -/
+def endsTy : Bool → Expr → Bool
+  | true, .ident _ => true
+  | inTy, .paren e => endsTy inTy e
+  | inTy, .unary u e => if needs (unaryParens u.toOp uprec) e then false else endsTy inTy e
+  | false, .binary b _ r => if needs (binaryRightParens b.toOp (bprec b)) r then false else endsTy false r
+  | false, .dflt _ r => endsTy false r
+  | _, .sliceT t => endsTy true t
+  | _, .arrayT _ t => endsTy true t
+  | _, .mapT _ v => endsTy true v
+  | _, .chanT d t => if chanParens d t then false else endsTy true t
+  | _, _ => false
+
+/-- the printed form starts with `chan`: after `<-` it would be read as `<-chan` -/
+def startsChan : Expr → Bool
+  | .chanT .NoDirection _ => true
+  | .chanT .SendDirection _ => true
+  | .paren e => startsChan e
+  | .binary b l _ => if needs (binaryLeftParens b.toOp (bprec b)) l then false else startsChan l
+  | .call f _ _ => if callParens f then false else startsChan f
+  | .index e _ => startsChan e
+  | .slicing e _ _ _ _ => startsChan e
+  | .selector e _ => startsChan e
+  | .typeAssert e _ => startsChan e
+  | .dflt l _ => startsChan l
+  | _ => false
+
+def isDflt (e : Expr) : Bool := match e.core with | .dflt _ _ => true | _ => false
+
 mutual
-/-- the sub-fragment on which `String()` parses back (finding postfix-operand-parens): the operand
-of a call, index or selector is not a unary or binary operator, except `*x` and `<-x` as the
-function of a call (the one case `Call.String` parenthesises). -/
+/-- The sub-fragment on which `String()` parses back:
+* the operand of a call, index, slicing, selector or type assertion is not a bare unary or binary
+  operator, except `*x`/`<-x` under a call (finding postfix-operand-parens);
+* a `default` expression is the whole expression, an argument, an index, a bound, an array length
+  or the right side of another `default` (finding default-operand);
+* the operand of a selector or type assertion does not end in a type name (`[]T.x`);
+* the operand of `<-` does not start with `chan` (`<-chan T`). -/
 def Plain : Expr → Prop
   | .ident _ => True
-  | .lit _ => True
+  | .lit _ _ => True
   | .paren e => Plain e
-  | .unary _ e => Plain e
-  | .binary _ l r => Plain l ∧ Plain r
-  | .call f args _ => Plain f ∧ PlainArgs args ∧ (isOperator f = true → callParens f = true)
-  | .index e i => Plain e ∧ Plain i ∧ isOperator e = false
-  | .selector e _ => Plain e ∧ isOperator e = false
+  | .unary u e => Plain e ∧ isDflt e = false ∧ (u = .receive → needs (unaryParens u.toOp uprec) e = false → startsChan e = false)
+  | .binary _ l r => Plain l ∧ Plain r ∧ isDflt l = false ∧ isDflt r = false
+  | .call f args _ => Plain f ∧ PlainArgs args ∧ (isOperator f = true → callParens f = true) ∧ isDflt f = false
+  | .index e i => Plain e ∧ Plain i ∧ isOperator e = false ∧ isDflt e = false
+  | .slicing e lo hi max _ => Plain e ∧ PlainOpt lo ∧ PlainOpt hi ∧ PlainOpt max ∧ isOperator e = false ∧ isDflt e = false
+  | .selector e _ => Plain e ∧ isOperator e = false ∧ isDflt e = false ∧ endsTy false e = false
+  | .typeAssert e t => Plain e ∧ Plain t ∧ isOperator e = false ∧ isDflt e = false ∧ endsTy false e = false
+  | .dflt l r => Plain l ∧ Plain r
+  | .sliceT t => Plain t
+  | .arrayT len t => PlainOpt len ∧ Plain t
+  | .mapT k v => Plain k ∧ Plain v
+  | .chanT _ t => Plain t
+  | .iface => True
 def PlainArgs : List Expr → Prop
   | [] => True
   | a :: as => Plain a ∧ PlainArgs as
+def PlainOpt : Option Expr → Prop
+  | none => True
+  | some e => Plain e
 end
 
 end ScriggoV.ExprPP
